@@ -766,8 +766,13 @@ mod builtins {
     /// {{ value['key'] == value|attr('key') }} -> true
     /// ```
     #[cfg_attr(docsrs, doc(cfg(feature = "builtins")))]
-    pub fn attr(value: &Value, key: &Value) -> Result<Value, Error> {
-        value.get_item(key)
+    pub fn attr(state: &State, value: &Value, key: &Value) -> Result<Value, Error> {
+        match value.get_item_opt(key) {
+            Some(rv) => Ok(rv),
+            None => state
+                .undefined_behavior()
+                .handle_undefined(value.is_undefined()),
+        }
     }
 
     /// Round the number to a given precision.
